@@ -180,7 +180,7 @@ func evaluate(spec *propSpec, tier string, extra map[string][]byte) (obls []*Obl
 			}
 		}
 		for _, o := range c.r.Obls {
-			if !hasProp(o, spec.ID) {
+			if spec.ID != "*" && !hasProp(o, spec.ID) {
 				continue
 			}
 			k := o.Rule + "|" + o.Key + "|" + o.St
